@@ -1,5 +1,7 @@
 import OdfModel.Abs
 import OdfModel.Traverse
+import OdfModel.Transform
+import OdfModel.Span
 import OdfModel.Drv.Util
 namespace Odf.Drv.Table
 open Odf.Rle Odf.Table Odf.Drv
@@ -238,3 +240,58 @@ def handleTrav (r : RowObj) : List String → String
   | _ => "bad-op"
 
 end Odf.Drv.Row
+
+namespace Odf.Drv.Transform
+open Odf.Rle Odf.Table Odf.Drv Odf.Drv.Table Odf.Transform Odf.Span
+
+/-- payload ids: 0 = empty unstyled, 1 = empty styled (value None) — see harness/tables.py -/
+def empOf (aggressive : Bool) (c : Nat) : Bool := if aggressive then c < 2 else c == 0
+
+def handleTbl (t : Tbl) : List String → Option (Tbl × String)
+  | ["rstrip", a] =>
+    let emp := empOf (a == "1")
+    let t' := tblRstrip emp t
+    let spec := gridRstrip emp (absT t)
+    some (t', encState t' ++ (if absT t' = spec then " spec=ok" else " spec=DIFF"))
+  | ["transpose"] =>
+    let t' := tblTranspose t
+    some (t', encState t')
+  | _ => none
+
+def decSCell (s : String) : Option SCell :=
+  match s.splitOn "." with
+  | [v, c, r, k] =>
+    match v.toNat?, c.toNat?, r.toNat?, k.toNat? with
+    | some v, some c, some r, some k => some ⟨v, if c = 0 then none else some c, if r = 0 then none else some r, k != 0⟩
+    | _, _, _, _ => none
+  | _ => none
+
+def encSCell (c : SCell) : String := s!"{c.val}.{c.spanC.getD 0}.{c.spanR.getD 0}.{if c.covered then 1 else 0}"
+
+def decSGrid (s : String) : Option SGrid :=
+  if s == "-" then some [] else (s.splitOn "/").mapM (fun r => if r == "e" then some [] else (r.splitOn ",").mapM decSCell)
+
+def encSGrid (g : SGrid) : String :=
+  if g.isEmpty then "-" else "/".intercalate (g.map (fun r => if r.isEmpty then "e" else ",".intercalate (r.map encSCell)))
+
+def handleSpan (g : SGrid) : List String → SGrid × String
+  | ["init", s] => match decSGrid s with
+      | some g' => (g', "ok " ++ encSGrid g')
+      | none => (g, "bad-op")
+  | ["set", x, y, z, t] =>
+    match x.toNat?, y.toNat?, z.toNat?, t.toNat? with
+    | some x, some y, some z, some t =>
+      match setSpan g x y z t with
+      | some g' => (g', "ok 1 " ++ encSGrid g')
+      | none => (g, "ok 0 " ++ encSGrid g)
+    | _, _, _, _ => (g, "bad-op")
+  | ["del", x, y] =>
+    match x.toNat?, y.toNat? with
+    | some x, some y =>
+      match delSpan g x y with
+      | some g' => (g', "ok 1 " ++ encSGrid g')
+      | none => (g, "ok 0 " ++ encSGrid g)
+    | _, _ => (g, "bad-op")
+  | _ => (g, "bad-op")
+
+end Odf.Drv.Transform
